@@ -1,7 +1,7 @@
 (* C02  Selected and ranked paths are always maximal under the stated decision
    order.  Statements only. *)
 From Coq Require Import List NArith ZArith Bool Sorting.Permutation.
-From RB Require Import Base.Val Model.Rib Spec.BestPath Proofs.RibC02.
+From RB Require Import Base.Val Model.Rib Spec.BestPath Proofs.RibC02 Proofs.RibViews.
 Import ListNotations.
 Open Scope N_scope.
 
@@ -143,3 +143,30 @@ Check rs_local_best :
     /\ forall x, In x (d_entries d) -> eligible x = true -> s_role (e_src x) = 1 -> s_addr (e_src x) <> peer ->
                  not_worse (t_flags (run (empty_table shard) ops)) net e x.
 Print Assumptions rs_local_best.
+
+(* The Adj-RIB-In view of a peer (destinations(AdjIn(peer)), with or without the paths
+   import policy rejected) is exactly the peer's paths of the destination, listed in
+   the decision order; the soft-reset input (collect_adj_in_paths) is exactly the
+   peer's paths, without the stale ones unless asked for. *)
+Theorem adj_in_view :
+  forall shard ops net d a flt,
+    consistent ops ->
+    In (net, d) (t_dests (run (empty_table shard) ops)) ->
+    (forall e, In e (adj_in a flt d) <->
+               In e (d_entries d) /\ s_addr (e_src e) = a /\ (flt = true \/ e_filtered e = false))
+    /\ ranked (t_flags (run (empty_table shard) ops)) net (adj_in a flt d)
+    /\ (forall e, In e (soft_in (t_flags (run (empty_table shard) ops)) a flt d) <->
+                  In e (d_entries d) /\ s_addr (e_src e) = a
+                  /\ (flt = true \/ is_stale (t_flags (run (empty_table shard) ops)) e = false)).
+Proof. exact C02_adj_in_view. Qed.
+Check adj_in_view :
+  forall shard ops net d a flt,
+    consistent ops ->
+    In (net, d) (t_dests (run (empty_table shard) ops)) ->
+    (forall e, In e (adj_in a flt d) <->
+               In e (d_entries d) /\ s_addr (e_src e) = a /\ (flt = true \/ e_filtered e = false))
+    /\ ranked (t_flags (run (empty_table shard) ops)) net (adj_in a flt d)
+    /\ (forall e, In e (soft_in (t_flags (run (empty_table shard) ops)) a flt d) <->
+                  In e (d_entries d) /\ s_addr (e_src e) = a
+                  /\ (flt = true \/ is_stale (t_flags (run (empty_table shard) ops)) e = false)).
+Print Assumptions adj_in_view.
